@@ -37,8 +37,8 @@ ASSUMPTIONS = [
     'comments added by resolveImports (/* START @import ... */) are ignored',
 ]
 MIN_EVENTS = {
-    'quick': {'oracle.enumerate': 5000, 'oracle.replace': 3500, 'oracle.flatten': 4000, 'urls.compared': 20000, 'edges.expanded': 5000, 'edges.kept': 800, 'oracle.combine': 100},
-    'thorough': {'oracle.enumerate': 120000, 'oracle.replace': 90000, 'oracle.flatten': 100000, 'urls.compared': 500000, 'edges.expanded': 120000, 'edges.kept': 20000, 'oracle.combine': 2400},
+    'quick': {'oracle.enumerate': 5000, 'oracle.replace': 3500, 'oracle.flatten': 4000, 'urls.compared': 18000, 'edges.expanded': 5000, 'edges.kept': 800, 'oracle.combine': 100},
+    'thorough': {'oracle.enumerate': 120000, 'oracle.replace': 90000, 'oracle.flatten': 100000, 'urls.compared': 450000, 'edges.expanded': 120000, 'edges.kept': 20000, 'oracle.combine': 2400},
 }
 
 TOP = 'http://h/d0/d1/top.css'
